@@ -135,6 +135,9 @@ func main() {
 			fmt.Fprintf(os.Stderr, "simrun: %v\n", err)
 			os.Exit(2)
 		}
+		if ((rf.Idx-rf.Prefix)/7)%3 == 1 {
+			sign.VerifyFirstWarmUp() // as the job this run belonged to did
+		}
 		for i := rf.Idx - rf.Prefix; i < rf.Idx; i++ {
 			runOne(rf.World, rf.Prop, *variant, rf.VerifSeed, i, nil, false) // process history only
 		}
